@@ -680,6 +680,11 @@ pub enum RepR {
     Scaled(FeR),
     /// Z = -1
     MinusOne,
+    /// a representative in which the Jacobian coordinates satisfy a RELATION a shortcut might test for
+    /// (kind 0: Y = 1/2, so that doubling keeps Z: Z(2P) = 2YZ = Z(P); 1: Y = v; 2: X = v; 3: Y = Z;
+    /// 4: X = Z; 5: X = Y; 6: Y = -1/2; 7: Z = v from the structured generator), the scale factor found with square / cube roots in the model;
+    /// when the root does not exist v is stepped (kinds 1, 2) or the plain scaled representative is used
+    Related(u8, FeR),
 }
 
 pub fn rep_strategy() -> BoxedStrategy<RepR> {
@@ -687,6 +692,7 @@ pub fn rep_strategy() -> BoxedStrategy<RepR> {
         4 => Just(RepR::Normal),
         1 => Just(RepR::MinusOne),
         4 => fq_uniformish().prop_map(RepR::Scaled),
+        2 => (0u8..8, fq_strategy()).prop_map(|(k, v)| RepR::Related(k, v)),
     ]
     .boxed()
 }
@@ -697,9 +703,63 @@ where
     G::F: SqrtFld,
 {
     use ff_zeroize::Field;
+    let embed = |f: &FeR| -> G::F {
+        let v = f.fq();
+        let mut acc = <G::F as Fld>::zero();
+        let base = <G::F as Fld>::from_u64(1u64 << 32);
+        for d in v.0.to_u32_digits().iter().rev() {
+            acc = acc.mul(&base).add(&<G::F as Fld>::from_u64(*d as u64));
+        }
+        acc
+    };
     let lam: G::F = match rep {
         RepR::Normal => <G::F as Fld>::one(),
         RepR::MinusOne => <G::F as Fld>::one().neg(),
+        RepR::Related(kind, f) => match p {
+            Pt::Inf => {
+                let v = embed(f);
+                if v.is_zero() { <G::F as Fld>::one() } else { v }
+            }
+            Pt::Aff(x, y) => {
+                let one = <G::F as Fld>::one();
+                let half = <G::F as Fld>::from_u64(2).inv().unwrap();
+                let v0 = embed(f);
+                let mut found: Option<G::F> = None;
+                for step in 0..8u64 {
+                    let v = v0.add(&<G::F as Fld>::from_u64(step));
+                    let cand: Option<G::F> = match kind % 8 {
+                        // l^3 y = 1/2
+                        0 => y.inv().and_then(|yi| half.mul(&yi).cube_root()),
+                        // l^3 y = v
+                        1 => y.inv().and_then(|yi| v.mul(&yi).cube_root()),
+                        // l^2 x = v
+                        2 => x.inv().and_then(|xi| v.mul(&xi).sqrt()),
+                        // l^3 y = l  ->  l^2 = 1/y
+                        3 => y.inv().and_then(|yi| yi.sqrt()),
+                        // l^2 x = l  ->  l = 1/x
+                        4 => x.inv(),
+                        // l^2 x = l^3 y  ->  l = x/y
+                        5 => y.inv().map(|yi| x.mul(&yi)),
+                        // l^3 y = -1/2
+                        6 => y.inv().and_then(|yi| half.neg().mul(&yi).cube_root()),
+                        // Z = v
+                        _ => Some(v.clone()),
+                    };
+                    match cand {
+                        Some(l) if !l.is_zero() => {
+                            found = Some(l);
+                            break;
+                        }
+                        _ => {
+                            if !matches!(kind % 8, 1 | 2 | 7) {
+                                break;
+                            }
+                        }
+                    }
+                }
+                found.unwrap_or_else(|| if v0.is_zero() { one.clone() } else { v0.clone() })
+            }
+        },
         RepR::Scaled(f) => {
             // embed the Fq recipe value into F through a word stream-free path: c0 = value
             let v = f.fq();
